@@ -70,7 +70,8 @@ def main():
             P.run(a.tier, rnd, out)
     except lib.BuildError as e:
         errors.append("model: " + e.what)
-    except Exception as e:      # a harness stream that cannot run is "no longer shown", never silence
+    except SystemExit: raise
+    except BaseException as e:      # a harness stream that cannot run (cancellations escaping the event loop included) is "no longer shown", never silence or a bare crash
         errors.append("harness stream failed: " + "".join(traceback.format_exception_only(type(e), e)).strip()[:300])
         lib.save_log("harness-" + prop, traceback.format_exc())
     for n in lib.TRANSLATOR_NOTES: out.notes.append("translator: " + n + " (placeholder emitted; what depends on it no longer checks)")
